@@ -464,7 +464,7 @@ func buildScenarios() []*scenario {
 		weight  int
 	}{
 		{"softspoken", []proto.ID{2, 3}, 4},
-		{"bbot", []proto.ID{1, 2}, 1},
+		{"bbot", []proto.ID{1, 2}, 0}, // ~3-8 s per run: enumerated once per check in the quick tier, drawn in the thorough tier
 	} {
 		c := c
 		out = append(out, &scenario{
